@@ -330,7 +330,7 @@ def expand(state, col):
     txns = [((op, "rel"),) for op in ops] + [((op, "abs"),) for op in ops[::3]]
     for recs in ((), (("d", "NS"),), (("b.a", "A"), ("a", "A")), (("c.b.a", "NS"), ("x.d", "A")), (("a", "NS"), ("b.a", "NS"))):
         txns.append(((("reload", recs), "rel"),))
-    if pairs:
+    if pairs and len(history) <= 1:
         txns += [((a, "rel"), (b, "rel")) for a in ops for b in ops if a[1] != b[1] or a[0] != b[0]]
     for t in txns:
         h2 = history + (t,)
@@ -380,7 +380,8 @@ def run(ctx):
     ctx.assume("definition of derived state taken from the property statement and the class docstrings")
     depth = ctx.pick(3, 4)
     ctx.extra["bfs_depth_in_transactions"] = depth
-    init = [((rel, "init"), (rel, (), not ctx.quick and False)) for rel in (True, False)]
+    init = [((rel, "init"), (rel, (), not ctx.quick)) for rel in (True, False)]
+    ctx.extra["two_op_transactions_at_depth_le_1"] = not ctx.quick
     engines.bfs(ctx, init, expand, max_depth=depth)
     ctx.caps[:] = []   # the depth bound is the stated bound
     pool = [("a", "NS"), ("b.a", "NS"), ("c.b.a", "A"), ("a", "A"), ("b.a", "A"), ("d", "NS"), ("x.d", "A"), ("c.b.a", "NS")]
